@@ -126,7 +126,7 @@ def html_root():
 
 def case_strategy():
     frag = st.lists(node(2), max_size=4)
-    body = st.builds(lambda a, k: [{"k": "tag", "name": "body", "ws": True, "attrs": a, "kids": k}], ATTRS, st.lists(node(2), max_size=3))
+    body = st.builds(lambda a, k, ws: [{"k": "tag", "name": "body", "ws": ws, "attrs": a, "kids": k}], ATTRS, st.lists(node(2), max_size=3), st.sampled_from([True, True, False]))
     html = html_root().map(lambda h: [h])
     body_plus = st.builds(lambda b, f: b + f, body, st.lists(node(1), min_size=1, max_size=2))  # not a *lone* body: gets wrapped
     content = st.one_of(frag, frag, body, body_plus, html, html)
@@ -135,7 +135,7 @@ def case_strategy():
             "content": content,
             "split": st.integers(0, 4),
             "kw": KW,
-            "lib": st.sampled_from([None, "lib", "a/b", "lib"]),
+            "lib": st.sampled_from([None, "lib", "a/b", "lib", "lib/", "/", "/static/lib", ""]),
             "iv": st.booleans(),
         }
     )
@@ -233,9 +233,11 @@ def make_doc(case):
     kw = {a: attr_value(v) for a, v in case["kw"]}
     if len(content) == 1:
         k = 1 if case["split"] % 2 else 0
-    doc = h.HTMLDocument(*[build(r) for r in content[:k]], **kw)
+    objs = [build(r) for r in content]
+    doc = h.HTMLDocument(*objs[:k], **kw)
     if content[k:]:
-        doc.append(*[build(r) for r in content[k:]])
+        doc.append(*objs[k:])
+    doc._hv_objs = objs  # harness handle on the built top-level objects (for the mutate-and-render-again step)
     return doc, k < len(content)
 
 
@@ -263,6 +265,23 @@ def body_assemble(case, note):
     check([S.snap(d) for d in r["dependencies"]] == [S.snap(d) for d in exp_objs], "returned dependencies differ in content from the resolved ones")
     r2 = doc.render(lib_prefix=case["lib"], include_version=case["iv"])
     check(r2["html"] == r["html"], "rendering the document twice gives different markup")
+    # content changed *after* a rendering (not through doc.append): the next rendering must show it
+    mutated = False
+    for i, (rec, obj) in enumerate(zip(case["content"], doc._hv_objs)):
+        if rec["k"] == "tag" and isinstance(obj, h.Tag):
+            late_dep = {"k": "dep", "name": "late-dep", "version": "9.9", "head": "<late>"}
+            obj.append(build(late_dep), "late-text")
+            content2 = list(case["content"])
+            content2[i] = dict(rec, kids=list(rec["kids"]) + [late_dep, {"k": "text", "s": "late-text"}])
+            case2 = dict(case, content=content2)
+            if _shape(content2) == _shape(expand(content2)):
+                exp2, res2, _, _, _ = assemble(case2)
+                r3 = doc.render(lib_prefix=case["lib"], include_version=case["iv"])
+                want3 = "<!DOCTYPE html>\n" + build(exp2).get_html_string()
+                check(r3["html"] == want3, "a rendering after the content was changed does not show the change", want3, r3["html"])
+                check([(d.name, str(d.version)) for d in r3["dependencies"]] == [(d["name"], d["version"]) for d in res2], "dependencies after the content was changed are not the resolved list")
+                mutated = True
+            break
     _structure(r["html"], case, res, shape)
     depth2 = _max_dep_depth(case["content"]) >= 2
     in_user_head = user_head and any(_has_dep(k) for k in _user_head_kids(case["content"]))
@@ -276,6 +295,8 @@ def body_assemble(case, note):
         "headc" if any("_headc" in d for d in res) else "",
         "no-deps" if not res else "",
         "head-after-body" if _head_after_body(case["content"]) else "",
+        "rendered-again-after-change" if mutated else "",
+        "inline-body" if shape == "body" and not case["content"][0]["ws"] else "",
         "body-plus-more" if len(case["content"]) > 1 and case["content"][0]["k"] == "tag" and case["content"][0]["name"] == "body" else "",
     )
 
@@ -420,7 +441,7 @@ CLAUSES = [
         quick=700,
         thorough=10000,
         shards_quick=4,
-        required=("shape:html", "shape:body", "shape:fragment", "later-content", "user-head-with-dep", "kw-collides", "version-collision", "headc", "no-deps", "head-after-body", "body-plus-more"),
+        required=("shape:html", "shape:body", "shape:fragment", "later-content", "user-head-with-dep", "kw-collides", "version-collision", "headc", "no-deps", "head-after-body", "body-plus-more", "rendered-again-after-change", "inline-body"),
         rule="see RULE",
     ),
 ]
